@@ -272,6 +272,10 @@ const ELLIPSIS: &str = "…";
 fn format_with_ellipsis<S: Into<String>>(inp: S, limit: usize) -> String {
     let inp = inp.into();
     if inp.chars().count() > limit {
+        if limit < 2 {
+            // no room for the ellipsis and its blank: cut to the column width
+            return inp.chars().take(limit).collect();
+        }
         format!(
             "{str:.prelimit$}{ellipsis} ",
             str = inp,
